@@ -13,7 +13,7 @@ import (
 //assume: C12.seq: store, lock, identity provider are nondeterministic stubs (every call may fail independently); the clock is a symbolic instant that does not advance during one request; the 5 s lock-obtain timeout never fires (lock busy for at most 2 rounds); times are 10-digit unix seconds
 //assume: C12.seq: the store hands out a fresh session object on every Load (what both real stores do)
 
-// verif: unwind=6 also=C13,C01,C14
+// verif: unwind=6 also=C13,C01,C14,C11
 func vh_C12_seq() {
 	nowSec := int64(ndInt("now"))
 	verifAssume(nowSec >= 1000000000 && nowSec <= 9999999999)
